@@ -49,9 +49,10 @@ func scenRace(r *Run) {
 	actorsPer := 4 + t.Choose(cs, 5)
 	duration := time.Duration(1000+t.Choose(cs, 3000)) * time.Millisecond
 	lossPM, dupPM := t.Skewed(cs, 0, 200), t.Skewed(cs, 0, 100)
+	teardown := t.Choose(cs, 6)
 	baseUs, jitUs := 50+t.Skewed(cs, 0, 20000), t.Skewed(cs, 0, 5000)
-	r.Res.Config = fmt.Sprintf("cipher=%s fec=%d/%d udp=%v batch=%v workers=%d clients=%d actors/session=%d duration=%v loss=%d dup=%d delay=%d+%dus",
-		o.World.Cipher, o.World.FecD, o.World.FecP, o.World.UDP, o.World.Batch, o.World.SchedWorkers, nClients, actorsPer, duration, lossPM, dupPM, baseUs, jitUs)
+	r.Res.Config = fmt.Sprintf("cipher=%s fec=%d/%d udp=%v batch=%v workers=%d clients=%d actors/session=%d duration=%v loss=%d dup=%d delay=%d+%dus teardown=%d",
+		o.World.Cipher, o.World.FecD, o.World.FecP, o.World.UDP, o.World.Batch, o.World.SchedWorkers, nClients, actorsPer, duration, lossPM, dupPM, baseUs, jitUs, teardown)
 	s.L.Logf("config %s", r.Res.Config)
 	w := NewWorld(s, o.World)
 	kcp.VerifYield = nil
@@ -245,13 +246,51 @@ func scenRace(r *Run) {
 		runActors("cli", sess, s.Tape.Seed^uint64(c+1)*0xD1B54A32D192ED03)
 	}
 	time.Sleep(duration)
+	// how the run ends is part of the configuration: orderly, or with the
+	// transport failing under the crowd (socket read / write errors reach the
+	// listener and the sessions while other goroutines are still using and
+	// closing them)
+	errSock := fmt.Errorf("simulated socket failure")
+	switch teardown {
+	case 1:
+		w.LConn.InjectReadError(errSock)
+		time.Sleep(time.Duration(1+netRand.n(20)) * time.Millisecond)
+	case 2:
+		for _, c := range clientConns {
+			c.InjectReadError(errSock)
+		}
+		time.Sleep(time.Duration(1+netRand.n(20)) * time.Millisecond)
+	case 3:
+		w.LConn.InjectWriteError(errSock)
+		for _, c := range clientConns {
+			c.InjectWriteError(errSock)
+		}
+		time.Sleep(time.Duration(1+netRand.n(20)) * time.Millisecond)
+	}
 	close(stop)
 	// everything down; blocked calls return through Close
 	sessMu.Lock()
 	all := append([]*kcp.UDPSession(nil), sessions...)
 	sessMu.Unlock()
-	for _, sess := range all {
-		sess.Close()
+	switch teardown {
+	case 4, 5:
+		// sessions closed from goroutines of their own while the listener's socket
+		// fails (4) or is closed under it (5)
+		var cw sync.WaitGroup
+		for _, sess := range all {
+			cw.Add(1)
+			go func() { defer cw.Done(); sess.Close() }()
+		}
+		if teardown == 4 {
+			w.LConn.InjectReadError(errSock)
+		} else {
+			w.LConn.Close()
+		}
+		cw.Wait()
+	default:
+		for _, sess := range all {
+			sess.Close()
+		}
 	}
 	l.Close()
 	for _, c := range w.Net.list {
